@@ -62,6 +62,11 @@ pub enum Step {
     Dust { token: usize, to: u8, slot: usize, amount: u64 },
     /// Fault: the keeper's execute of action `slot` is delivered a second time.
     DupExecute { slot: usize },
+    /// C32 stub of the future `set_builder_fee`: checkpoint a builder (user index) and a fee factor (in
+    /// 1e-6 units of 100 %) onto the pending order `slot`.
+    ForgeBuilder { slot: usize, builder: usize, factor_ppm: u32 },
+    /// Settle the builder fee of order `slot` (`twice`: the settlement is delivered two times).
+    SettleBuilderFee { slot: usize, twice: bool },
 }
 
 #[derive(Clone, Copy, Debug, PartialEq, Eq)]
@@ -96,6 +101,10 @@ pub struct Act {
     pub executed_once: bool,
     /// (market, long amount, short amount) of a deposit without swap paths / (market, amount) of a withdrawal.
     pub plain: Option<(usize, u64, u64)>,
+    /// C32: (builder user index, factor, size_usd requested, collateral delta, market) once a builder has been checkpointed.
+    pub builder: Option<(usize, u128)>,
+    /// (size_delta_usd, collateral_delta, market index, is_collateral_long) of a position order.
+    pub order_info: Option<(u128, u64, usize, bool)>,
 }
 
 pub struct Exchange;
@@ -150,7 +159,51 @@ impl Scenario for Exchange {
         for _ in 0..len {
             let user = p.usize(0, cfg.n_users - 1);
             let market = p.usize(0, n_markets - 1);
+            // A trader's round trip: open, (price move), reduce or close, with an optional builder what-if.
+            if p.chance(1, if focus == "C32" { 6 } else { 25 }) {
+                let mdef = MARKETS[market];
+                let is_long = p.bool();
+                let collat_long = p.bool();
+                let ctoken = if collat_long { mdef.1 } else { mdef.2 };
+                let collat_usd_cents = p.range(2_000, 500_000);
+                let dec = [9u32, 6, 8, 8][ctoken];
+                let collateral = (collat_usd_cents as u128 * 10u128.pow(dec) / cents[ctoken].max(1) as u128) as u64;
+                let lev = *p.pick(&[1u64, 2, 5, 10, 20]);
+                let size_usd = (collat_usd_cents / 100).max(1) * lev;
+                steps.push(Step::Prices { cents: cents.clone(), spread_bps: 2 });
+                n_actions += 1;
+                steps.push(Step::Order { user, market, kind: 0, is_long, collat_long, collateral, size_usd, path: vec![], min_output: None, acceptable_cents: None, tin: None, tout: None });
+                if p.chance(1, 2) {
+                    steps.push(Step::ForgeBuilder { slot: n_actions - 1, builder: p.usize(0, cfg.n_users - 1), factor_ppm: *p.pick(&[0u32, 1, 100, 1_000, 10_000, 200_000]) });
+                }
+                steps.push(Step::Execute { slot: n_actions - 1, throw: p.bool() });
+                if p.chance(1, 3) {
+                    steps.push(Step::Advance { secs: *p.pick(&[1i64, 60, 3000]) });
+                }
+                if p.chance(1, 2) {
+                    for c in cents.iter_mut() {
+                        let bps = p.range(0, 300);
+                        let d = (*c as u128 * bps as u128 / 10_000) as u64;
+                        *c = if p.bool() { c.saturating_add(d) } else { c.saturating_sub(d).max(1) };
+                    }
+                }
+                steps.push(Step::Prices { cents: cents.clone(), spread_bps: 2 });
+                n_actions += 1;
+                let full = p.chance(1, 2);
+                steps.push(Step::Order { user, market, kind: 1, is_long, collat_long, collateral: if p.chance(1, 3) { collateral / 5 } else { 0 }, size_usd: if full { u64::MAX / 1_000_000_000 } else { (size_usd / 2).max(1) }, path: vec![], min_output: None, acceptable_cents: None, tin: None, tout: None });
+                let with_builder = p.chance(2, 3);
+                if with_builder {
+                    steps.push(Step::ForgeBuilder { slot: n_actions - 1, builder: p.usize(0, cfg.n_users - 1), factor_ppm: *p.pick(&[1u32, 100, 1_000, 10_000, 200_000, 900_000]) });
+                }
+                steps.push(Step::Execute { slot: n_actions - 1, throw: p.bool() });
+                if with_builder {
+                    steps.push(Step::SettleBuilderFee { slot: n_actions - 1, twice: p.bool() });
+                }
+                steps.push(Step::Close { slot: n_actions - 1, by: By::Owner });
+                continue;
+            }
             let w = match focus {
+                "C32" => *p.pick(&[5u64, 6, 36, 37, 38, 39, 40, 41, 42, 43, 98, 98, 98, 60, 61, 62, 63, 64, 99, 99, 99, 80, 81]),
                 "C44" => *p.pick(&[12u64, 13, 22, 30, 40, 41, 42, 43, 44, 50, 51, 52, 60, 61, 62, 63, 64, 65, 66, 80, 2, 5]),
                 _ => p.below(100),
             };
@@ -262,7 +315,9 @@ impl Scenario for Exchange {
                 88..=90 => Step::Liquidate { pos: p.usize(0, 7) },
                 91..=93 => Step::UpdateFees { market },
                 94..=96 if cfg.faults => Step::Dust { token: p.usize(0, n_tokens - 1), to: p.below(2) as u8, slot: p.usize(0, n_actions.max(1) - 1), amount: p.log_u64(1_000_000_000) },
-                97..=99 if cfg.faults => Step::DupExecute { slot: p.usize(0, n_actions.max(1) - 1) },
+                97 if cfg.faults => Step::DupExecute { slot: p.usize(0, n_actions.max(1) - 1) },
+                98 => Step::ForgeBuilder { slot: n_actions.saturating_sub(1), builder: p.usize(0, cfg.n_users - 1), factor_ppm: *p.pick(&[0u32, 1, 100, 1_000, 10_000, 50_000]) },
+                99 => Step::SettleBuilderFee { slot: p.usize(0, n_actions.max(1) - 1), twice: p.bool() },
                 _ => Step::Prices { cents: cents.clone(), spread_bps: 2 },
             };
             // most executes are preceded by fresh prices
@@ -645,7 +700,7 @@ impl Sim {
                         escrowed.push((stm, *short));
                     }
                 }
-                self.acts.push(Act { kind: Kind::Deposit, key, owner: *user, st: if out.ok { St::Pending } else { St::Closed }, escrows, escrowed, swap: None, order_kind: None, position: None, executed_once: false, plain: (args.long_path.is_empty() && args.short_path.is_empty() && args.initial_long_token.is_none() && args.initial_short_token.is_none()).then_some((market, *long, *short)) });
+                self.acts.push(Act { kind: Kind::Deposit, key, owner: *user, st: if out.ok { St::Pending } else { St::Closed }, escrows, escrowed, swap: None, order_kind: None, position: None, executed_once: false, builder: None, order_info: None, plain: (args.long_path.is_empty() && args.short_path.is_empty() && args.initial_long_token.is_none() && args.initial_short_token.is_none()).then_some((market, *long, *short)) });
                 self.after_tx(&out, obs);
             }
             Step::Withdraw { user, market, bps, min_long, min_short, long_path, short_path, lt, st } => {
@@ -679,7 +734,7 @@ impl Sim {
                 if stm != ltm {
                     escrows.push((stm, ata(&key, &stm)));
                 }
-                self.acts.push(Act { kind: Kind::Withdrawal, key, owner: *user, st: if out.ok { St::Pending } else { St::Closed }, escrows, escrowed: vec![(mk.market_token, amount)], swap: None, order_kind: None, position: None, executed_once: false, plain: (args.long_path.is_empty() && args.short_path.is_empty() && args.final_long_token.is_none() && args.final_short_token.is_none()).then_some((market, amount, 0)) });
+                self.acts.push(Act { kind: Kind::Withdrawal, key, owner: *user, st: if out.ok { St::Pending } else { St::Closed }, escrows, escrowed: vec![(mk.market_token, amount)], swap: None, order_kind: None, position: None, executed_once: false, builder: None, order_info: None, plain: (args.long_path.is_empty() && args.short_path.is_empty() && args.final_long_token.is_none() && args.final_short_token.is_none()).then_some((market, amount, 0)) });
                 self.after_tx(&out, obs);
             }
             Step::Shift { user, from, to, bps, min_to } => {
@@ -698,7 +753,7 @@ impl Sim {
                 if tm.market_token != fm.market_token {
                     escrows.push((tm.market_token, ata(&key, &tm.market_token)));
                 }
-                self.acts.push(Act { kind: Kind::Shift, key, owner: *user, st: if out.ok { St::Pending } else { St::Closed }, escrows, escrowed: vec![(fm.market_token, amount)], swap: None, order_kind: None, position: None, executed_once: false, plain: None });
+                self.acts.push(Act { kind: Kind::Shift, key, owner: *user, st: if out.ok { St::Pending } else { St::Closed }, escrows, escrowed: vec![(fm.market_token, amount)], swap: None, order_kind: None, position: None, executed_once: false, builder: None, order_info: None, plain: None });
                 self.after_tx(&out, obs);
             }
             Step::Order { user, market, kind, is_long, collat_long, collateral, size_usd, path, min_output, acceptable_cents, tin, tout } => {
@@ -737,7 +792,7 @@ impl Sim {
                     swap_path: path.clone(),
                     swap_type: None,
                 };
-                let (ixs, key, position) = ex::create_order_tx(&self.d, &args);
+                let (ixs, key, position) = ex::create_order_tx_opts(&self.d, &args, true);
                 let out = self.w.process_tx(&ixs, &TxOpts::default());
                 obs.outcome("owner", &format!("create_order_{k:?}"), &out.class());
                 obs.event(|| format!("create_order {k:?} m{market} long={is_long} collat={collateral} size={size_usd} path={path:?} -> {}", out.class()));
@@ -784,6 +839,8 @@ impl Sim {
                     position,
                     executed_once: false,
                     plain: None,
+                    builder: None,
+                    order_info: (!swap).then_some((args.size_delta, *collateral, market, *collat_long)),
                 });
                 self.after_tx(&out, obs);
             }
@@ -793,6 +850,64 @@ impl Sim {
                 self.execute(*slot, true, true, obs)
             }
             Step::Close { slot, by } => self.close(*slot, *by, obs),
+            Step::ForgeBuilder { slot, builder, factor_ppm } => {
+                if self.acts.is_empty() {
+                    return;
+                }
+                let i = *slot % self.acts.len();
+                if self.acts[i].kind != Kind::Order || self.acts[i].swap.is_some() || self.act_state(&self.acts[i]) != St::Pending {
+                    return;
+                }
+                let owner = self.user(*builder);
+                let o = self.w.process(ex::prepare_user_ix(&self.d, &owner));
+                if !o.ok {
+                    return;
+                }
+                let factor = *factor_ppm as u128 * (USD / 1_000_000);
+                self.acts[i].builder = Some((*builder, factor));
+                obs.probe("c32_builder_what_if_attached");
+                obs.event(|| format!("builder what-if on order #{i}: user {builder} factor {factor}"));
+            }
+            Step::SettleBuilderFee { slot, twice } => {
+                if self.acts.is_empty() {
+                    return;
+                }
+                let i = *slot % self.acts.len();
+                let Some((b, _)) = self.acts[i].builder else { return };
+                let key = self.acts[i].key;
+                let owner = self.user(b);
+                for round in 0..(1 + *twice as usize) {
+                    let Some((ixs, claim_vault)) = crate::c32::settle_ix(&self.w, &self.d, &key, &owner) else { return };
+                    let Some(recorded) = crate::c32::recorded_fee(&self.w, &key) else { return };
+                    let o: gmsol_store::states::Order = match read_pod(&self.w, &key) { Some(o) => o, None => return };
+                    let Some(token) = o.tokens().final_output_token().token() else { return };
+                    let escrow = ata(&key, &token);
+                    let esc0 = token_balance(&self.w, &escrow);
+                    let cv0 = token_balance(&self.w, &claim_vault);
+                    let out = self.w.process_tx(&ixs, &TxOpts::default());
+                    obs.outcome("anyone", "settle_builder_fee", &out.class());
+                    if round == 1 {
+                        obs.fault("duplicate_settlement");
+                    }
+                    if out.ok {
+                        let esc1 = token_balance(&self.w, &escrow);
+                        let cv1 = token_balance(&self.w, &claim_vault);
+                        let moved = cv1 - cv0;
+                        let rec_after = crate::c32::recorded_fee(&self.w, &key).unwrap_or(u64::MAX);
+                        obs.require(moved <= recorded && moved <= esc0 && esc0 - esc1 == moved, "C32", "settlement_overpaid", || format!("round={round}"), || format!("settlement moved {moved}; recorded {recorded}, escrow held {esc0}"));
+                        obs.require(moved == recorded.min(esc0), "C32", "settlement_amount", || format!("round={round}"), || format!("settlement moved {moved}, expected min(recorded {recorded}, escrow {esc0})"));
+                        obs.require(rec_after == 0, "C32", "record_not_zeroed", || format!("round={round}"), || format!("recorded builder fee after settlement = {rec_after}"));
+                        if round == 1 || recorded == 0 {
+                            obs.require(moved == 0, "C32", "repeated_settlement_paid", || "repeat".into(), || format!("a repeated settlement moved {moved}"));
+                            obs.probe("c32_repeated_settlement_noop");
+                        }
+                        if recorded > 0 {
+                            obs.probe("c32_fee_settled");
+                        }
+                    }
+                    self.after_tx(&out, obs);
+                }
+            }
             Step::Liquidate { pos } => {
                 if self.positions.is_empty() {
                     return;
@@ -994,6 +1109,9 @@ impl Sim {
                     if let Some((path, tin, tout)) = self.acts[i].swap.clone() {
                         self.check_swap_execution(i, &path, tin, tout, &out, &rec_before, &esc_before, obs);
                     }
+                    if self.acts[i].builder.is_some() {
+                        self.check_builder_fee(i, &pre, &out, &rec_before, &esc_before, obs);
+                    }
                 }
                 St::Cancelled => {
                     obs.probe("soft_failed_execution");
@@ -1097,6 +1215,104 @@ impl Sim {
         let in_mint = self.d.tokens[tin].mint;
         let delta = if in_mint == out_mint { got + amount_in - had } else { got - had.min(got) };
         obs.require(delta == cur_amount || path.is_empty(), "C44", "output_not_in_escrow", || "escrow".into(), || format!("swap output {cur_amount} but escrow of the output token changed by {delta}"));
+    }
+
+    /// C32: the builder-fee arithmetic evaluated (through the cfg-guarded hook) on the executed size,
+    /// prices, collateral increment and output of a position order that just executed, for the what-if
+    /// factor attached by the plan; afterwards the charge is recorded on the order account (stub of the
+    /// unreachable charging path) so that the real settlement instruction can be exercised.
+    fn check_builder_fee(&mut self, i: usize, pre: &World, out: &TxOutcome, _rec_before: &[(u64, u64)], esc_before: &[(Pubkey, u64)], obs: &mut Obs) {
+        use gmsol_store::ops::order::verif as bf;
+        let Some((builder_idx, factor)) = self.acts[i].builder else { return };
+        let Some((_req_size, collateral, mi, collat_long)) = self.acts[i].order_info else { return };
+        let Some(kind) = self.acts[i].order_kind else { return };
+        let key = self.acts[i].key;
+        let mut size_delta: Option<u128> = None;
+        for ev in out.cpi_events(&gmsol_store::ID) {
+            if ev.len() >= 8 && ev[..8] == *gmsol_store::events::TradeEvent::DISCRIMINATOR {
+                if let Ok(e) = gmsol_store::events::TradeEvent::try_from_slice(&ev[8..]) {
+                    size_delta = Some(e.after.size_in_usd.abs_diff(e.before.size_in_usd));
+                }
+            }
+        }
+        let Some(size_delta) = size_delta else {
+            obs.probe("c32_no_trade_event");
+            return;
+        };
+        let mk = self.d.markets[mi].clone();
+        let ctoken = if collat_long { mk.long } else { mk.short };
+        let Some(prices) = crate::c40::accepted_prices(pre, &self.d, mi) else { return };
+        let increase = ex::is_increase(kind);
+        let out_mint = if increase {
+            self.d.tokens[ctoken].mint
+        } else {
+            match read_pod::<gmsol_store::states::Order>(&self.w, &key).and_then(|o| o.tokens().final_output_token().token()) {
+                Some(t) => t,
+                None => return,
+            }
+        };
+        let fee_price = if out_mint == self.d.tokens[mk.long].mint {
+            prices.long_token_price
+        } else if out_mint == self.d.tokens[mk.short].mint {
+            prices.short_token_price
+        } else {
+            obs.probe("c32_fee_token_outside_market");
+            return;
+        };
+        let Some((ra, rb)) = crate::c32::reference_fee(size_delta, factor, fee_price.min) else { return };
+        // 1. fee = executed size x factor, converted at the minimum price, rounded up
+        let fee = match bf::compute_builder_fee_amount(size_delta, factor, &fee_price) {
+            Ok(f) => f,
+            Err(_) => {
+                obs.probe("c32_fee_overflow_reported");
+                return;
+            }
+        };
+        obs.require(fee == ra || fee == rb, "C32", "fee_amount", || format!("zero_factor={}", factor == 0), || format!("builder fee {fee} for size {size_delta}, factor {factor}, min price {}; reference {ra} (or {rb})", fee_price.min));
+        let esc_out_before = esc_before.iter().find(|e| e.0 == out_mint).map(|e| e.1).unwrap_or(0);
+        let esc_out_after = self.acts[i].escrows.iter().find(|e| e.0 == out_mint).map(|e| token_balance(&self.w, &e.1)).unwrap_or(0);
+        let mut recorded: u64 = 0;
+        if increase {
+            // 2. fee + remaining increment == original increment, or the order fails
+            match bf::charge_builder_fee_on_collateral_increment(collateral, size_delta, factor, &fee_price) {
+                Ok((after, charged)) => {
+                    obs.require(after as u128 + charged as u128 == collateral as u128 && charged as u128 == fee, "C32", "increment_split", || "ok".into(), || format!("increment {collateral}: after {after} + fee {charged} (computed fee {fee})"));
+                    obs.probe("c32_fee_on_increase");
+                }
+                Err(_) => {
+                    obs.require(fee > collateral as u128, "C32", "increment_split", || "err".into(), || format!("charging fee {fee} on increment {collateral} failed although the increment covers it"));
+                    obs.probe("c32_fee_exceeds_increment_rejected");
+                }
+            }
+        } else {
+            // 3. on a decrease the recorded fee never exceeds the final output
+            let output = (esc_out_after as u128).saturating_sub(esc_out_before as u128);
+            let paid = bf::clamp_builder_fee_amount(fee, output);
+            obs.require(paid <= output && paid <= fee && (paid == fee || paid == output), "C32", "fee_exceeds_output", || "kind=decrease".into(), || format!("decrease: fee {fee}, output {output}, clamped {paid}"));
+            recorded = paid.min(u64::MAX as u128) as u64;
+            obs.probe("c32_fee_on_decrease");
+            // withdrawal estimate: tops the requested withdrawal up by the fee, rejects collateral->pnl swaps
+            use gmsol_model::action::decrease_position::DecreasePositionSwapType as Ty;
+            for ty in [Ty::NoSwap, Ty::PnlTokenToCollateralToken, Ty::CollateralToPnlToken] {
+                let r = bf::estimate_builder_fee_for_collateral_withdrawal(collateral as u128, size_delta, factor, &fee_price, ty);
+                match r {
+                    Ok(v) => {
+                        let want = if factor == 0 { collateral as u128 } else { collateral as u128 + fee };
+                        obs.require(v == want && (factor == 0 || ty != Ty::CollateralToPnlToken), "C32", "withdrawal_estimate", || format!("ty={ty:?}"), || format!("withdrawal estimate {v}, expected {want} (fee {fee}, swap type {ty:?})"));
+                    }
+                    Err(_) => {
+                        obs.require(factor != 0 && (ty == Ty::CollateralToPnlToken || (collateral as u128).checked_add(fee).is_none()), "C32", "withdrawal_estimate", || format!("ty={ty:?},err=true"), || format!("withdrawal estimate failed for swap type {ty:?}, factor {factor}"));
+                    }
+                }
+            }
+        }
+        // stub: record the charge so that settlement can run (only what the escrow can cover is meaningful)
+        if recorded > 0 && self.w.get(&key).is_some() {
+            let owner = self.user(builder_idx);
+            if crate::c32::forge_builder(&mut self.w, &key, &ex::user_pda(&self.d, &owner), factor, recorded) {
+                obs.probe("c32_charge_recorded_by_stub");
+            }
+        }
     }
 
     fn close(&mut self, slot: usize, by: By, obs: &mut Obs) {
